@@ -1,4 +1,92 @@
-/- Driver.C19 — stream `C19` (stub: replaced when the property's model is built). -/
+/-
+  Driver.C19 — stream `C19`: one cell of the typed-property table.
+
+    payload := ( mode tag prop attr ( anc* ) init assign )
+      mode   := cell                       -- the model of the code: dispatch over the generated tables (AHP.Gen)
+      tag prop attr anc := string atoms    -- attr: the HTML attribute the cell initialises and observes
+      init   := absent | (bare) | (text "s")
+      assign := no | (s "text") | (i n) | (b true|false) | (n)          -- `em.prop = value` after the initialisation
+
+    result := ( setout value attrvalue hasattr ( ("name" value?)* ) )
+      setout := skip | ok | (raise E)
+      value  := none | (s "text") | (i n) | (b true|false) | (t "w"*) | (anc i) | (obj what) | (raise E)
+-/
+import AHP.Model.Conv
 namespace Driver.C19
-def run (_payload : String) : String := "unimplemented"
+open AHP AHP.Sexp AHP.Conv
+
+def errName : PyErr → String
+  | .valueError => "ValueError"
+  | .typeError => "TypeError"
+  | .keyError => "KeyError"
+  | .indexSizeError => "IndexSizeErrorException"
+  | .other n => n
+
+def boolSym (b : Bool) : Sexp := sym (if b then "true" else "false")
+
+def renderV : PyV → Sexp
+  | .none => sym "none"
+  | .str s => .list [sym "s", strAtom s]
+  | .int n => .list [sym "i", sym (toString n)]
+  | .bool b => .list [sym "b", boolSym b]
+  | .tokens ws => .list (sym "t" :: ws.map strAtom)
+  | .ancestor i => .list [sym "anc", natAtom i]
+  | .opaque w => .list [sym "obj", sym w]
+
+def renderR : Except PyErr PyV → Sexp
+  | .ok v => renderV v
+  | .error e => .list [sym "raise", sym (errName e)]
+
+def toS? (x : Sexp) : Option String := (toStr? x).map String.ofList
+
+def parseV : Sexp → Option PyV
+  | .list [.atom "s", x] => (toStr? x).map .str
+  | .list [.atom "i", .atom n] => n.toInt?.map .int
+  | .list [.atom "b", .atom "true"] => some (.bool true)
+  | .list [.atom "b", .atom "false"] => some (.bool false)
+  | .list [.atom "n"] => some .none
+  | _ => none
+
+def parseInit (attr : String) : Sexp → Option (List (String × Option Str))
+  | .atom "absent" => some []
+  | .list [.atom "bare"] => some [(attr, none)]
+  | .list [.atom "text", x] => (toStr? x).map (fun s => [(attr, some s)])
+  | _ => none
+
+def observe (T : Tables) (e : Elem) (prop attr : String) (setout : Sexp) : Sexp :=
+  .list [setout,
+         renderR (getProp T pyIntOfStr e prop),
+         renderV (e.getAttribute T attr .none),
+         boolSym (e.hasAttribute attr),
+         .list (e.attributesList.map (fun (k, v) => .list [strAtom k.toList, optStr v]))]
+
+def runCell (T : Tables) (tag prop attr : String) (anc : List String) (init : List (String × Option Str))
+    (assign : Option PyV) : Sexp :=
+  let e0 := Elem.ofAttrList T tag anc init (Elem.new tag anc)
+  match assign with
+  | none => observe T e0 prop attr (sym "skip")
+  | some v =>
+    match setProp T pyIntOfStr e0 prop v with
+    | .ok e1 => observe T e1 prop attr (sym "ok")
+    | .error err => observe T e0 prop attr (.list [sym "raise", sym (errName err)])
+
+def run (payload : String) : String :=
+  match Sexp.parse payload with
+  | some (.list [.atom mode, tag, prop, attr, .list anc, init, assign]) =>
+    match toS? tag, toS? prop, toS? attr, anc.mapM toS? with
+    | some tag, some prop, some attr, some anc =>
+      match parseInit attr init with
+      | none => "bad-init"
+      | some init =>
+        let asg : Option (Option PyV) := match assign with
+          | .atom "no" => some none
+          | x => (parseV x).map some
+        match asg with
+        | none => "bad-assign"
+        | some asg =>
+          if mode = "cell" then (runCell genTables tag prop attr anc init asg).render
+          else "bad-mode"
+    | _, _, _, _ => "bad-case"
+  | _ => "bad-case"
+
 end Driver.C19
